@@ -333,12 +333,11 @@ func runParse(c *Case, tr *Trace) {
 	parseDoc(rec, c.Entry)
 	if c.Measure {
 		cv := &CountVisitor{}
-		saved := tr.Calls
+		chunks := chunksOf(doc, c.Cuts) // prepared outside the measured region
 		var m0, m1 runtime.MemStats
 		runtime.ReadMemStats(&m0)
-		measureParse(api, c, doc, cv)
+		measureParse(api, c, doc, chunks, cv)
 		runtime.ReadMemStats(&m1)
-		tr.Calls = saved
 		d := m1.TotalAlloc - m0.TotalAlloc
 		if d > huge {
 			d = huge
@@ -349,14 +348,14 @@ func runParse(c *Case, tr *Trace) {
 }
 
 // measureParse repeats the parse with a non-allocating visitor.
-func measureParse(api *fmtAPI, c *Case, doc []byte, v structform.Visitor) {
+func measureParse(api *fmtAPI, c *Case, doc []byte, chunks [][]byte, v structform.Visitor) {
 	defer func() { recover() }()
 	switch c.Entry {
 	case "parse", "parsestr":
 		api.parse(doc, v)
 	case "write":
 		p := api.newParser(v)
-		for _, ch := range chunksOf(doc, c.Cuts) {
+		for _, ch := range chunks {
 			if _, err := p.Write(ch); err != nil {
 				return
 			}
@@ -365,7 +364,7 @@ func measureParse(api *fmtAPI, c *Case, doc []byte, v structform.Visitor) {
 			f.VerifFinalize()
 		}
 	case "reader":
-		api.parseReader(&chunkReader{chunks: chunksOf(doc, c.Cuts)}, v)
+		api.parseReader(&chunkReader{chunks: chunks}, v)
 	case "decbytes":
 		d := api.newBytesDecoder(doc, v)
 		for i := 0; i < len(doc)+3; i++ {
